@@ -21,7 +21,7 @@ ASSUMPTIONS = [
   "channel-1 code; documents compared by deep fingerprint (absdoc.fingerprint)",
 ]
 REQUIRED = ["cls:padding", "cls:chars", "cls:pac", "cls:midrow", "cls:control", "cls:attribute", "cls:special",
-            "cls:extended", "cls:unknown", "channel:1", "channel:2", "channel:None-field2", "disasm:lines", "consume:probes", "consume:class:control:chNone:field2", "consume:class:control:ch2", "consume:class:unknown-low:chNone", "consume:class:unknown-code:chNone"]
+            "cls:extended", "cls:unknown", "channel:1", "channel:2", "channel:None-field2", "disasm:lines", "consume:probes", "consume:class:control:chNone:field2", "consume:class:control:ch2", "consume:class:unknown-low:chNone", "consume:probes-with-trailing-text", "consume:class:unknown-code:chNone"]
 SHARD_TIMEOUT = {"quick": 600, "thorough": 1800}
 
 
@@ -331,15 +331,20 @@ def _read_fp(text):
   return absdoc.fingerprint(scc_reader.to_model(text))
 
 
-def check_consume(ctx, mode, inserts):
-  """inserts: list of (frame, word) - each transmitted doubled on a line of its own."""
+def check_consume(ctx, mode, inserts, trail=False):
+  """inserts: list of (frame, word) - each transmitted doubled on a line of its own.  trail: each is followed, four frames
+  later, by a line of printable characters only - they continue the other channel's data (the channel of a character pair
+  is the one of the last control code, whichever line it came on) and are not channel-1 text either."""
   base = BASES[mode]
   ctx.ev()
-  ctx.count("consume:probes")
-  rp = {"kind": "consume", "mode": mode, "inserts": [list(x) for x in inserts]}
+  ctx.count("consume:probes-with-trailing-text" if trail else "consume:probes")
+  rp = {"kind": "consume", "mode": mode, "inserts": [list(x) for x in inserts], "trail": trail}
+  extra = [(f, [w, w]) for f, w in inserts]
+  if trail:
+    extra += [(f + 4, _txt("ZZ TOP")) for f, _ in inserts]
   try:
     want = _read_fp(_render(base))
-    got = _read_fp(_render(base + [(f, [w, w]) for f, w in inserts]))
+    got = _read_fp(_render(base + extra))
   except Exception as e:  # pylint: disable=broad-except
     ctx.violation("consume-raises", f"{mode} stream with foreign words {[hex(w) for _, w in inserts]}: {type(e).__name__}: {e}", rp)
     return
@@ -385,6 +390,12 @@ def run_consume(ctx, params):
       for w in pick:
         for f in slots[:5]:
           check_consume(ctx, mode, [(f, w)])
+    # channel-2 codes followed by a line of bare text (the text is channel-2 text)
+    for key, vs in sorted(fw.items(), key=lambda kv: repr(kv[0])):
+      if key[1] == 2:
+        for w in (vs if key[0] == "control" else [vs[0], vs[len(vs) // 2], vs[-1]]):
+          for f in slots[:5]:
+            check_consume(ctx, mode, [(f, w)], trail=True)
     allv = [v for vs in fw.values() for v in vs]
     for _ in range(params["random"]):
       k = rng.choice([1, 2, 3, 5])
@@ -419,7 +430,7 @@ def run(ctx, params):
 
 def replay(ctx, payload):
   if payload["kind"] == "consume":
-    check_consume(ctx, payload["mode"], [tuple(x) for x in payload["inserts"]])
+    check_consume(ctx, payload["mode"], [tuple(x) for x in payload["inserts"]], trail=payload.get("trail", False))
   elif payload["kind"] == "word":
     check_word(ctx, payload["value"])
   else:
